@@ -47,11 +47,11 @@ type CondBroadcast struct {
 
 // BlockRow is one confirmed (operation, extra lock) pair of rule B.
 type BlockRow struct {
-	Func  string   // function containing the blocking operation
-	Op    string   // "recv", "send", "select", "condwait", "wgwait", "sleep", "reflect.Select", "callback"
-	Held  []string // exact set of lock classes allowed to remain held (after removing cond.L)
-	Why   string
-	Alt   [][]string // alternative exact sets (other contexts)
+	Func string   // function containing the blocking operation
+	Op   string   // "recv", "send", "select", "condwait", "wgwait", "sleep", "reflect.Select", "callback"
+	Held []string // exact set of lock classes allowed to remain held (after removing cond.L)
+	Why  string
+	Alt  [][]string // alternative exact sets (other contexts)
 }
 
 // HandOff declares a lock passed from a spawner to the goroutine it starts.
